@@ -175,7 +175,7 @@ def filename_call(expr, fr, F):
 
 
 @rule('C13.R3', 'a blob file is entered in the dirty list before it is '
-      'created in the committed namespace', props=['C06'], min_instances=2)
+      'created in the committed namespace', props=['C06', 'C05'], min_instances=2)
 def r3(R):
     sites = 0
     for q, meth in ((MIXIN, '_blob_storeblob'), (BLOBSTORAGE, 'undo')):
@@ -617,3 +617,176 @@ def r9(R):
         R.require(seen[0] or vs, 'BlobStorage.%s no longer delegates' % meth)
         for v in vs:
             R.violation(v.node, v.message, g, v.path, at_root=True)
+
+
+# ------------------------------------------------------------------ C13.R10
+def _contains_call(e, name):
+    return any(isinstance(c, ast.Call) and dotted(c.func) and
+               dotted(c.func)[-1] == name for c in ast.walk(e))
+
+
+@rule('C13.R10', 'every undo record of a blob revision gets its own copy of '
+      'the blob file: once the restored state is found to be a blob record '
+      'the copy is made, whatever else holds', props=['C06'],
+      min_instances=1)
+def r10(R):
+    cls = R.prog.cls(FS)
+    f = R.method(cls, '_txn_undo_write')
+    g, b, F = R.cfg(f, cls, max_depth=0)
+    R.instance('FileStorage._txn_undo_write blob copy')
+    seen = [0]
+
+    def edge(node, st, lab, tgt):
+        blob, stored = st
+        if node.kind == 'loophead':
+            return (False, False)
+        if node.kind == 'test' and lab in ('T', 'F') and _contains_call(
+                node.ast, 'is_blob_record'):
+            seen[0] += 1
+            atoms = [(e, t) for e, t in implied_atoms(node.ast, lab)
+                     if isinstance(e, ast.Call) and dotted(e.func) and
+                     dotted(e.func)[-1] == 'is_blob_record']
+            if atoms:
+                blob = atoms[0][1]
+            else:
+                # the test failed (or held) for some other reason: the
+                # record may well be a blob record -- unless every other
+                # condition only says that there is no data at all
+                blob = True
+                calls = [c for c in ast.walk(node.ast)
+                         if isinstance(c, ast.Call) and dotted(c.func) and
+                         dotted(c.func)[-1] == 'is_blob_record' and c.args]
+                t = node.ast
+                if lab == 'F' and isinstance(t, ast.BoolOp) and isinstance(
+                        t.op, ast.And) and calls:
+                    arg = ast.dump(calls[0].args[0])
+
+                    def no_data(v):
+                        if v is calls[0]:
+                            return True
+                        if isinstance(v, ast.Compare) and len(v.ops) == 1 \
+                                and isinstance(v.ops[0], ast.IsNot) and \
+                                isinstance(v.comparators[0], ast.Constant) \
+                                and v.comparators[0].value is None:
+                            v = v.left
+                        return ast.dump(v) == arg
+                    if all(no_data(v) for v in t.values):
+                        blob = False
+        if lab not in ('e', 'eb'):
+            for op in F.ops(node):
+                if op.kind == 'call' and op.path and \
+                        op.path[-1] == '_blob_storeblob':
+                    stored = True
+        return (blob, stored)
+
+    def at(node, st):
+        blob, stored = st
+        if blob and not stored:
+            for op in F.ops(node):
+                if op.kind == 'call' and path_is(
+                        op.path, ('self', '_tfile', 'write')):
+                    return Violation(
+                        'an undo record is staged for a state that is a blob '
+                        'record although no blob file was copied for it on '
+                        'this path (the copy depends on something besides '
+                        'the record being a blob record): when one '
+                        'transaction undoes two revisions of a blob the '
+                        'record points to the older state while the file '
+                        'keeps the bytes of the first undo')
+        return st
+
+    vs, stats = explore(g, (False, False), at=at, edge=edge)
+    R.count(stats)
+    R.require(seen[0] or vs, '_txn_undo_write no longer tests for blob '
+              'records')
+    for v in vs:
+        R.violation(v.node, v.message, g, v.path)
+
+
+# ------------------------------------------------------------------ C13.R11
+@rule('C13.R11', 'when the packer drops a record and blobs are packed, it '
+      'finds out from the record\'s DATA (directly or through its '
+      'backpointer) whether a blob file goes with it', props=['C07'],
+      min_instances=1)
+def r11(R):
+    pk = R.prog.cls(PACKER)
+    f = R.method(pk, 'copyDataRecords')
+    g, b, F = R.cfg(f, pk, max_depth=0)
+    R.instance('FileStoragePacker.copyDataRecords dropped records')
+    seen = [0]
+
+    def edge(node, st, lab, tgt):
+        dropped, blobs, asked = st
+        if node.kind == 'loophead':
+            return (False, None, False)
+        if node.kind == 'test' and lab in ('T', 'F'):
+            atoms = implied_atoms(node.ast, lab)
+            for e, t in atoms:
+                if isinstance(e, ast.Call) and dotted(e.func) and \
+                        dotted(e.func)[-1] == 'isReachable':
+                    dropped = not t
+                    seen[0] += 1
+            mentions = any(dotted(x) == ('self', 'pack_blobs')
+                           for x in ast.walk(node.ast))
+            if mentions:
+                definite = [t for e, t in atoms
+                            if dotted(e) == ('self', 'pack_blobs')]
+                blobs = definite[0] if definite else True   # may be set
+            if _contains_call(node.ast, 'is_blob_record'):
+                asked = True
+        return (dropped, blobs, asked)
+
+    def at(node, st):
+        dropped, blobs, asked = st
+        if dropped and blobs and not asked and node.kind in (
+                'loophead', 'continue'):
+            return Violation(
+                'a record is dropped by the pack without its data having '
+                'been checked for a blob (for instance when the record is a '
+                'backpointer, as the records written by undo are): the blob '
+                'file the undo copied for that revision is never listed for '
+                'removal and stays for ever')
+        return st
+
+    vs, stats = explore(g, (False, None, False), at=at, edge=edge)
+    R.count(stats)
+    R.require(seen[0] or vs, 'copyDataRecords no longer asks the collector '
+              'whether a record is reachable')
+    for v in vs:
+        R.violation(v.node, v.message, g, v.path)
+
+
+# ------------------------------------------------------------------ C13.R12
+@rule('C13.R12', 'committing savepoint data decides "blob or not" from the '
+      'record itself, not from what happens to be in the object cache',
+      props=['C12'], min_instances=1)
+def r12(R):
+    conn = R.prog.cls(CONN)
+    f = R.method(conn, '_commit_savepoint')
+    g, b, F = R.cfg(f, conn, max_depth=0)
+    n = 0
+    for node in (g.nodes[i] for i in g.reachable()):
+        if node.kind != 'test':
+            continue
+        for c in ast.walk(node.ast):
+            if isinstance(c, ast.Call) and isinstance(c.func, ast.Name) and \
+                    c.func.id == 'isinstance' and len(c.args) == 2 and \
+                    dotted(c.args[1]) and dotted(c.args[1])[-1] == 'Blob':
+                n += 1
+                R.instance('_commit_savepoint: %s' % ast.unparse(c))
+                pv = provenance(c.args[0], node.frame, F)
+                from_cache = prov_has(pv, 'path', lambda p: '_cache' in p) \
+                    or prov_has(pv, 'call', lambda p: '_cache' in p)
+                from_data = prov_has(pv, 'call', lambda p: p[-1] in (
+                    'getGhost', 'is_blob_record', 'load'))
+                if from_cache or not from_data:
+                    R.violation(
+                        node, 'whether a savepoint record is committed with '
+                        'its blob file is decided from `%s`, which comes '
+                        'from the object cache: the cache holds objects '
+                        'weakly, so after the blob left it (references '
+                        'dropped, cacheMinimize) the record is committed '
+                        'with store() and the blob file is thrown away' %
+                        ast.unparse(c.args[0]))
+    R.require(n >= 1, '_commit_savepoint no longer distinguishes blob '
+              'records')
